@@ -233,7 +233,8 @@ def _confirm(part, prop, native, results, extra_ops=None):
                 # debug build: the *next* call trips assert(buffer_ptr_ <= buffer_end_ptr_)
                 argv2 = smp["argv"][:-1] + [smp["argv"][-2]]
                 rc2, lines2, err2 = native.run(argv2, ndebug=False)
-                dbg_note = "debug build, same call twice: exit %d%s" % (rc2, " (assertion)" if "Assertion" in err2 else "")
+                dbg_note = "debug build (no -DNDEBUG) with the operation repeated (args %s): exit %d%s" % (
+                    " ".join(argv2[-3:]), rc2, " (assert(buffer_ptr_ <= buffer_end_ptr_) fails in the second call)" if "Assertion" in err2 else "")
             hdr = ["property %s, violation key %s" % (prop, k), c["desc"][:300],
                    "spec: %s" % (c.get("spec_op") or c.get("spec_out") or ("see obligation " + c["obligation"])),
                    "native observation (release build): %s" % observed[:200]]
@@ -270,24 +271,27 @@ def _kernel_part(name, prop, tier, seed, modes):
         cmds.append(cmd)
     specs = []
     budget = 780 if thorough else 75
-    for N in Ns:
-        for nd in builds:
-            base = dict(N=N, ndebug=nd, ir=irs[nd], seed=seed, budget_s=budget, samples=(24 if thorough else 3),
-                        stride=(1 if thorough else 2), xcheck=(6 if thorough else 0))
-            if "writer" in modes:
-                for op in cc_common.WRITE_OPS:
-                    b = dict(base, N=12) if (op in ("WriteVarU64", "WriteVarI64") and N < 10) else base
-                    specs.append(dict(b, kind="writer", op=op))
-            for op in cc_common.READ_OPS:
-                b = base
-                if op in ("ReadVarU64", "ReadVarI64") and N < 10:
-                    # the class needs buffer_size >= MAX_VARINT64_BYTES (the unchecked fast decoder runs on a freshly
-                    # filled buffer): N=8 would be outside its implicit precondition, so these two use N=12
-                    b = dict(base, N=12)
-                if "ok" in modes:
-                    specs.append(dict(b, kind="reader", op=op, mode="ok"))
-                if "trunc" in modes:
-                    specs.append(dict(b, kind="reader", op=op, mode="trunc"))
+    CHEAP_OK_32 = ("ReadVarU32", "ReadVarI32", "ReadFixed1", "ReadFixed2", "ReadFixed4", "ReadFixed8", "ReadByte", "VerifyFinished")
+    plan = [(N, nd, None) for N in Ns for nd in builds]
+    if thorough:
+        plan.append((32, True, CHEAP_OK_32))   # N=32: all writer and truncation tasks, the cheaper round-trip tasks
+    for N, nd, ok_subset in plan:
+        base = dict(N=N, ndebug=nd, ir=irs[nd], seed=seed, budget_s=budget, samples=(24 if thorough else 3),
+                    stride=(1 if thorough else 2), xcheck=(6 if thorough else 0))
+        if "writer" in modes:
+            for op in cc_common.WRITE_OPS:
+                b = dict(base, N=12) if (op in ("WriteVarU64", "WriteVarI64") and N < 10) else base
+                specs.append(dict(b, kind="writer", op=op))
+        for op in cc_common.READ_OPS:
+            b = base
+            if op in ("ReadVarU64", "ReadVarI64") and N < 10:
+                # the class needs buffer_size >= MAX_VARINT64_BYTES (the unchecked fast decoder runs on a freshly
+                # filled buffer): N=8 would be outside its implicit precondition, so these two use N=12
+                b = dict(base, N=12)
+            if "ok" in modes and (ok_subset is None or op in ok_subset):
+                specs.append(dict(b, kind="reader", op=op, mode="ok"))
+            if "trunc" in modes:
+                specs.append(dict(b, kind="reader", op=op, mode="trunc"))
     if not thorough and "ok" in modes:
         # quick tier: debug-build (asserts enabled) spot check of the two entry points that assert
         for op in ("ReadVarU32", "ReadFixed4"):
@@ -310,7 +314,7 @@ def _kernel_part(name, prop, tier, seed, modes):
                 if o["id"] == v["obligation"] and o["status"] == "violated":
                     o["status"] = "inconclusive"
                     o["note"] = (o["note"] + "; counterexample did not replay natively").strip("; ")
-    part["bounds"] = {"buffer_size_N": Ns, "stream_bytes_M": {str(N): max(N + 12, 2 * N + 4) for N in Ns}, "ReadBytes/WriteBytes size": "<= 2N+1 (symbolic)",
+    part["bounds"] = {"buffer_size_N": sorted({s["N"] for s in specs}), "stream_bytes_M": {str(N): max(N + 12, 2 * N + 4) for N in sorted({s["N"] for s in specs})}, "ReadBytes/WriteBytes size": "<= 2N+1 (symbolic)",
                       "varint unwinding": "block-visit cap 40 (never reached)", "builds": ["-O1 -DNDEBUG"] + (["-O1 (asserts on)"] if thorough else ["-O1 (asserts on): 3 entry points"]),
                       "tasks": len(specs), "clang": cmds}
     part["assumptions"] = ASSUME_COMMON + (ASSUME_READER if ("ok" in modes or "trunc" in modes) else []) + (ASSUME_WRITER if "writer" in modes else [])
